@@ -781,3 +781,144 @@ theorem byte_cut (h : GoodSer crc ser deser) (d rs : List WalEntry) (n : Nat)
 end bytes
 
 end Neumann.RaftWal
+
+/-! Part 6: at most one candidate per term ever gets this node's vote, across any crashes. -/
+namespace Neumann.RaftWal
+
+def VotesFn (vs : List (Nat × Nat)) : Prop := ∀ v ∈ vs, ∀ w ∈ vs, v.1 = w.1 → v.2 = w.2
+
+theorem preHigher_no_vote (n : Node) (t : Nat) (r : Role) (a b : Nat) :
+    Micro.ackVote a b ∉ (preHigher n t r).1 := by
+  unfold preHigher; split <;> simp
+
+/-- a vote is only ever announced for the term and candidate the node then holds in memory -/
+theorem step_votes (n : Node) (e : Event) (t c : Nat) (h : Micro.ackVote t c ∈ (step n e).micros) :
+    (step n e).node.term = t ∧ (step n e).node.votedFor = some c := by
+  have hno := preHigher_no_vote n
+  cases e with
+  | startElection =>
+    simp only [step, List.mem_cons, List.mem_nil_iff, or_false, reduceCtorEq, false_or, Micro.ackVote.injEq] at h ⊢
+    obtain ⟨rfl, rfl⟩ := h; exact ⟨rfl, rfl⟩
+  | voteResponse t' =>
+    simp only [step] at h ⊢
+    split at h <;> simp at h
+  | preVoteResponse t' b =>
+    simp only [step] at h ⊢
+    split at h <;> simp at h
+  | appendResponse t' =>
+    simp only [step] at h ⊢
+    split at h <;> simp at h
+  | becomeLeader => simp [step] at h
+  | propose cmd =>
+    simp only [step] at h ⊢
+    split at h <;> simp at h
+  | installSnapshot a b es =>
+    simp only [step, List.mem_append, List.mem_cons, List.mem_nil_iff, or_false, reduceCtorEq] at h
+    exact absurd h (hno _ _ _ _)
+  | appendEntries t' l pi pt es =>
+    simp only [step] at h
+    split at h
+    · split at h
+      · simp only [List.mem_append, List.mem_map, List.mem_cons, List.mem_nil_iff, or_false, reduceCtorEq,
+          and_false, exists_false] at h
+        exact absurd h (hno _ _ _ _)
+      · simp only [List.mem_append, List.mem_cons, List.mem_nil_iff, or_false, reduceCtorEq] at h
+        exact absurd h (hno _ _ _ _)
+    · simp only [List.mem_append, List.mem_cons, List.mem_nil_iff, or_false, reduceCtorEq] at h
+      exact absurd h (hno _ _ _ _)
+  | requestVote t' cand li lt =>
+    simp only [step] at h ⊢
+    split
+    · next hterm =>
+      rw [if_pos hterm] at h
+      split
+      · next hg =>
+        rw [if_pos hg] at h
+        simp only [List.mem_append, List.mem_cons, List.mem_nil_iff, or_false, reduceCtorEq, false_or,
+          Micro.ackVote.injEq] at h
+        rcases h with h | ⟨rfl, rfl⟩
+        · exact absurd h (hno _ _ _ _)
+        · exact ⟨rfl, rfl⟩
+      · next hg =>
+        rw [if_neg hg] at h
+        simp only [List.mem_append, List.mem_cons, List.mem_nil_iff, or_false, reduceCtorEq] at h
+        exact absurd h (hno _ _ _ _)
+    · next hterm =>
+      rw [if_neg hterm] at h
+      simp only [List.mem_append, List.mem_cons, List.mem_nil_iff, or_false, reduceCtorEq] at h
+      exact absurd h (hno _ _ _ _)
+
+theorem votes_microAllG (g : Ghost) (ms : List Micro) (v : Nat × Nat) :
+    v ∈ (microAllG g ms).votes ↔ v ∈ g.votes ∨ Micro.ackVote v.1 v.2 ∈ ms := by
+  induction ms generalizing g with
+  | nil => simp [microAllG]
+  | cons μ ms ih =>
+    simp only [microAllG, List.foldl_cons] at ih ⊢
+    rw [ih]
+    cases μ with
+    | wal r => cases r <;> simp [microG]
+    | ackTerm t => simp [microG]
+    | ackLog es => simp [microG]
+    | ackVote t c =>
+      obtain ⟨a, b⟩ := v
+      simp only [microG, List.mem_cons, Prod.mk.injEq, Micro.ackVote.injEq]
+      constructor
+      · intro h; rcases h with (h | h) | h
+        · exact Or.inr (Or.inl h)
+        · exact Or.inl h
+        · exact Or.inr (Or.inr h)
+      · intro h; rcases h with h | h | h
+        · exact Or.inl (Or.inr h)
+        · exact Or.inl (Or.inl h)
+        · exact Or.inr h
+
+/-- after a completed handler the announced votes are still one-per-term -/
+theorem votesFn_ev (σ : Sys) (e : Event) (h : Inv σ) (hf : VotesFn σ.ghost.votes) (he : NoSnap e) :
+    VotesFn (execAct σ (.ev e)).ghost.votes := by
+  have hinv' := inv_execAct σ (.ev e) h he
+  obtain ⟨hS', _, hsat'⟩ := hinv'
+  have key : ∀ w : Nat × Nat, Micro.ackVote w.1 w.2 ∈ (step σ.node e).micros →
+      ∀ v ∈ (execAct σ (.ev e)).ghost.votes, v.1 = w.1 → v.2 = w.2 := by
+    intro w hw v hv hvw
+    have hn := step_votes σ.node e w.1 w.2 hw
+    have hvo := hsat'.2.1 v hv
+    have ht : (fromEntries (execAct σ (.ev e)).dur).term = w.1 := by rw [← hS'.1]; exact hn.1
+    have hvf : (fromEntries (execAct σ (.ev e)).dur).votedFor = some w.2 := by rw [← hS'.2.1]; exact hn.2
+    rcases hvo with hlt | ⟨_, hsome⟩
+    · omega
+    · rw [hvf] at hsome; exact (Option.some.inj hsome).symm
+  intro v hv w hw hvw
+  have hv' := (votes_microAllG σ.ghost (step σ.node e).micros v).mp hv
+  have hw' := (votes_microAllG σ.ghost (step σ.node e).micros w).mp hw
+  rcases hw' with hwold | hwnew
+  · rcases hv' with hvold | hvnew
+    · exact hf v hvold w hwold hvw
+    · exact (key v hvnew w hw hvw.symm).symm
+  · exact key w hwnew v hv hvw
+
+theorem votesFn_execAct (σ : Sys) (a : Act) (h : Inv σ) (hf : VotesFn σ.ghost.votes) (ha : NoSnapAct a) :
+    VotesFn (execAct σ a).ghost.votes := by
+  cases a with
+  | ev e => exact votesFn_ev σ e h hf ha
+  | crash e k =>
+    have hfull := votesFn_ev σ e h hf ha
+    have sub : ∀ v ∈ (execAct σ (.crash e k)).ghost.votes, v ∈ (execAct σ (.ev e)).ghost.votes := by
+      intro v hv
+      have := (votes_microAllG σ.ghost ((step σ.node e).micros.take k) v).mp hv
+      apply (votes_microAllG σ.ghost (step σ.node e).micros v).mpr
+      rcases this with h1 | h2
+      · exact Or.inl h1
+      · exact Or.inr (List.mem_of_mem_take h2)
+    intro v hv w hw hvw
+    exact hfull v (sub v hv) w (sub w hw) hvw
+
+theorem votesFn_exec (σ : Sys) (as : List Act) (h : Inv σ) (hf : VotesFn σ.ghost.votes)
+    (ha : ∀ a ∈ as, NoSnapAct a) : VotesFn (exec σ as).ghost.votes := by
+  induction as generalizing σ with
+  | nil => exact hf
+  | cons a as ih =>
+    simp only [exec, List.foldl_cons]
+    exact ih _ (inv_execAct σ a h (ha a (by simp))) (votesFn_execAct σ a h hf (ha a (by simp)))
+      (fun b hb => ha b (by simp [hb]))
+
+end Neumann.RaftWal
